@@ -3,9 +3,11 @@
 //! drop per thread, and the start of every pass).
 //!
 //! Per pass, the traces of the worker threads are sent to the model:
-//!  * `poolok`     — the decidable form of the hypotheses of the interleaving theorems
-//!                   (`Proofs/LocksCheck.lean`: `poolOKb ts = true → no schedule of ts panics on a
-//!                   try_lock, deadlocks, or fails to end`);
+//!  * `poolok2`    — the decidable form of the (wide) hypotheses of the interleaving theorems
+//!                   (`Proofs/LocksWide.lean`: `poolOK2b ts = true → no schedule of ts panics on a
+//!                   try_lock, deadlocks, or fails to end`): a mutex acquired once in the pass may
+//!                   be taken by either call and held across others; any other acquisition must
+//!                   be a `lock()` released by the thread's next operation;
 //!  * `locksearch` — when the hypotheses fail: a search over the interleavings of the observed
 //!                   traces for a schedule that panics or deadlocks (the replay);
 //!  * `locktrace`  — external sampling only: the events the model's traversal makes in each pass
@@ -89,13 +91,13 @@ pub fn check_locks(ctx: &mut Ctx, case: &Value, t: &T, cfg: &Cfg, log: &[LockRec
         }
         debug_assert!(ts.iter().flatten().all(|e| e.0 == OP_LOCK || e.0 == OP_TRY || e.0 == OP_UNLOCK));
         let req = ser_traces(ts);
-        let resp = ctx.model.ask(&format!("poolok {}", req));
+        let resp = ctx.model.ask(&format!("poolok2 {}", req));
         ctx.stat("lock_passes_checked");
         if resp.starts_with("ok true") {
             continue;
         }
         if !resp.starts_with("ok false") {
-            ctx.fail_corr(case, format!("model answered {:?} to poolok", &resp[..resp.len().min(120)]));
+            ctx.fail_corr(case, format!("model answered {:?} to poolok2", &resp[..resp.len().min(120)]));
             return;
         }
         let why = resp["ok false".len()..].trim().to_string();
@@ -132,8 +134,11 @@ pub fn check_locks(ctx: &mut Ctx, case: &Value, t: &T, cfg: &Cfg, log: &[LockRec
         for (pi, ts) in passes.iter().enumerate() {
             let k = tk.nat();
             let model: Vec<Ev> = (0..k).map(|_| (tk.nat() as u8, tk.nat() as u8, tk.nat())).collect();
-            let a = multiset(ts.iter().flatten().cloned());
-            let b = multiset(model.into_iter());
+            // which call acquires a mutex (`lock` or `try_lock`) is left to the checker above: a
+            // mutex acquired once per pass may be taken either way
+            let flat = |e: Ev| if e.0 == OP_TRY { (OP_LOCK, e.1, e.2) } else { e };
+            let a = multiset(ts.iter().flatten().cloned().map(flat));
+            let b = multiset(model.into_iter().map(flat));
             if a != b {
                 let only_a: Vec<_> = a.iter().filter(|(e, c)| b.get(e) != Some(c)).take(4).collect();
                 let only_b: Vec<_> = b.iter().filter(|(e, c)| a.get(e) != Some(c)).take(4).collect();
